@@ -1773,3 +1773,30 @@ def dup_key_rule(rep, F):
                 if not guarded[k]:  # the key named in the error is not judged (AuxiliaryData's key-4 arm reports DuplicateKey(3): a wrong message, the repetition is refused all the same)
                     rep.violation("DUP-key", "%s|key %d" % (F.key(fid), k), "%s: the arm of map key %d has no DuplicateKey(%d) rejection (it guards %s) while the sibling arms refuse a repeated key: `a2 0%d .. 0%d ..` is accepted and the second entry silently replaces the first - FixedTransaction re-serialises only the last one" % (F.key(fid), k, k, sorted(guarded[k]) or "nothing", k, k), {"file": h["file"], "line": m[1]})
     rep.floor("integer key arms of guarded record-map readers", 60, n)
+
+
+def value_iter_rule(rep, F):
+    """VALUE-iter: value arithmetic looks at every entry"""
+    rep.rule("VALUE-iter", "the arithmetic and comparison methods of Value / MultiAsset / Assets / Mint / MintAssets (and their closures) walk their maps with no element-dropping or truncating adaptor (Iterator::filter / filter_map / take / take_while / skip / skip_while / step_by / find / nth / last, Vec::retain / truncate): every (policy, asset, quantity) entry of both operands takes part - `take_while(|q| !q.is_zero())` in checked_add cuts off an asset and all later assets of its policy, the builder's totals lose them on both sides and the built transaction creates or destroys tokens")
+    DROP = re.compile(r"(Iterator::(filter|filter_map|take|skip|take_while|skip_while|find|find_map|step_by|map_while|nth|last|position)$|Vec::<T, A>::(retain|retain_mut|truncate|dedup)$|BTreeMap::<K, V, A>::(retain|split_off|pop_first|pop_last)$)")
+    OWN = ("utils::Value", "MultiAsset", "Assets", "Mint", "MintAssets", "MintsAssets")
+    OK = {("Mint::get", "filter"): "a lookup: selects the entries of the requested policy id (Mint keeps repeated policies as separate entries) - not arithmetic"}
+    n = 0
+    for fid, fn in F.fns.items():
+        if "/tests/" in fn["file"] or F.is_derived(fid):
+            continue
+        base = fid.split("::{closure")[0]
+        bf = F.fns.get(base) or {}
+        adt = (bf.get("self_adt") or "")
+        if not any(adt == o or adt.endswith("::" + o) for o in OWN):
+            continue
+        n += 1
+        rep.inst("VALUE-iter")
+        for c in F.calls(fid):
+            if DROP.search(c.to or ""):
+                k = (F.key(base), (c.to or "").rsplit("::", 1)[-1])
+                if k in OK:
+                    rep.allow("VALUE-iter")
+                    continue
+                rep.violation("VALUE-iter", "%s|%s" % k, "%s passes the entries of a value through `%s`: entries are left out of the result, so sums / differences / comparisons computed by the builder no longer cover every asset" % (F.key(base), c.to), {"file": fn.get("file"), "line": c.line})
+    rep.floor("value arithmetic functions inspected", 40, n)
